@@ -24,6 +24,7 @@ type Clause struct {
 
 type LoopSpec struct {
 	Invariants []*Clause
+	Assumes    []*Clause // assumed at the head after the havoc, never checked (listed as assumptions)
 	Steps      []*Clause // checked at every back edge, not assumed at the head (may use ghosts taken at "loop:K")
 	Decreases  *Clause
 	Unroll     int     // >0: unroll with unwinding assertion
@@ -116,6 +117,7 @@ type ContractSet struct {
 	Files    []string
 	RawScan  []string // assume/trusted/extern lines for the evidence
 	Axioms   []*Clause // assumed facts about package-level variables of dependencies
+	GhostMaps map[string]*SpecFunc // ghost maps: name -> (params, result type)
 }
 
 func NewContractSet() *ContractSet {
@@ -310,7 +312,7 @@ func (cs *ContractSet) LoadFile(path, pkg string) error {
 			continue
 		}
 		if top && !map[string]bool{"func": true, "extern": true, "spec": true, "lemma": true, "monitor": true,
-			"objinv": true, "uninterp": true, "opaque": true, "axiom": true}[w] {
+			"objinv": true, "uninterp": true, "opaque": true, "axiom": true, "ghostmap": true}[w] {
 			if len(merged) > 0 {
 				merged[len(merged)-1].text += " " + l.text
 				continue
@@ -397,6 +399,15 @@ func (cs *ContractSet) LoadFile(path, pkg string) error {
 					Lets: map[string]*Expr{}, File: path, Line: l.line, Sites: map[string][]*Clause{}}
 				cs.Lemmas = append(cs.Lemmas, fc)
 				cur = fc
+			case "ghostmap":
+				name, ps, rs, err := splitSig(strings.TrimSpace(rest))
+				if err != nil {
+					return fmt.Errorf("%s:%d: %v", path, l.line, err)
+				}
+				if cs.GhostMaps == nil {
+					cs.GhostMaps = map[string]*SpecFunc{}
+				}
+				cs.GhostMaps[name] = &SpecFunc{Name: name, Params: parseParams(ps), Result: strings.TrimSpace(rs), Pkg: pkg}
 			case "axiom":
 				c, err := mkClause(rest, path, l.line)
 				if err != nil {
@@ -585,6 +596,13 @@ func (cs *ContractSet) LoadFile(path, pkg string) error {
 					return err
 				}
 				ls.Invariants = append(ls.Invariants, c)
+			case "assume":
+				c, err := mkClause(body, path, l.line)
+				if err != nil {
+					return err
+				}
+				ls.Assumes = append(ls.Assumes, c)
+				cs.RawScan = append(cs.RawScan, fmt.Sprintf("loop assume (%s loop %d) %s", cur.Name, k, body))
 			case "step":
 				c, err := mkClause(body, path, l.line)
 				if err != nil {
